@@ -24,7 +24,7 @@ def c07(ctx: Ctx):
         ctx.tlc("MC_C07O", "MC_C07O_asbuilt.cfg", label="D orchestration: security, path-level minus overridden, operation-level, body; fail-first / collect = FailingParts")
         ctx.tlc("MC_C07H", "MC_C07H_stateless.cfg", label="D history: parameters checked = Effective(route and document at the time of the call), <=3 validate/edit steps")
         if ctx.tier == "thorough":   # the refuted designs (model drift guards): each must still have its counterexample
-            for v in ("exclQueryOpOnly", "bodyPresenceFirst", "multiEarlyReturn", "overrideByName"):
+            for v in ("exclQueryOpOnly", "bodyPresenceFirst", "multiEarlyReturn", "overrideByName", "bodyByMethod"):
                 ctx.tlc("MC_C07O", "MC_C07O_%s.cfg" % v, expect_violation=True, label="D orchestration variant '%s' breaks the contract" % v)
             ctx.tlc("MC_C07H", "MC_C07H_memoRoute_noedit.cfg", label="D history variant 'memoRoute' is indistinguishable while the document is never edited")
             for design, by in (("memoOp", "an alias path item sharing the Operation (no edit)"), ("memoPathItem", "a sibling operation (no edit)"), ("memoRoute", "an edit")):
@@ -47,8 +47,9 @@ def c07(ctx: Ctx):
                 "{no params, one failing query param} x multi-error x callback-reads-body) + parameter focus (every assignment of path-level kind, "
                 "operation-level kind and request text to <=2 of 3 (in,name) keys x security x body x MultiError/ExcludeRequestBody/ExcludeRequestQueryParams) "
                 "+ requiredness focus + location focus (path/cookie/header of one name) + $ref focus + scope focus (outcome per scheme+scopes) "
-                "+ body focus (declaration none/optional/required x carried none/empty/pass/fail/otherct/badjson x ExcludeRequestBody x security x unsized) "
+                "+ method focus (the operation under each of get/put/post/delete/options/head/patch/trace x body declaration x carried body x ExcludeRequestBody; "
+                "sibling operations of one path item under two methods) + body focus (declaration none/optional/required x carried none/empty/pass/fail/otherct/badjson x ExcludeRequestBody x security x unsized) "
                 "+ unmentioned options / nil Options + no-callback focus + histories (second validation through an alias path item sharing the Operation value, a sibling "
                 "operation, an in-place edit of parameters / security / requestBody, then the first route again; thorough: chains of two kinds); "
                 "every case distinct, every call of every history judged")
-    ctx.validate("Trace_C07", "Trace_C07.cfg", logp, chunk_lines=2400 if ctx.tier == "quick" else 2500)
+    ctx.validate("Trace_C07", "Trace_C07.cfg", logp, chunk_lines=2450 if ctx.tier == "quick" else 2500)
